@@ -12,7 +12,13 @@ PROP = 'C03'
 HOLDS = (0, 3, 4, 9, 30, 90, 180, 65535)
 EPS = 1e-6
 REQ = {'@send': ('POST', '/v1/peer/<ip>/send/update',
-                 {'attr': {'1': 0, '2': [[2, [65001]]], '3': '10.0.0.1'}, 'nlri': ['10.9.0.0/16']})}
+                 {'attr': {'1': 0, '2': [[2, [65001]]], '3': '10.0.0.1'}, 'nlri': ['10.9.0.0/16']}),
+       # an UPDATE of about 3 kB (larger than one TCP segment)
+       '@sendbig': ('POST', '/v1/peer/<ip>/send/update',
+                    {'attr': {'1': 0, '2': [[2, [65001]]], '3': '10.0.0.1'}, 'nlri': ['10.%d.%d.0/24' % (i // 256, i % 256) for i in range(700)]}),
+       # requests the application got wrong, waiting in the handler's queue for the next KEEPALIVE (which must still count)
+       '@mq:bad': {'type': 'notification', 'msg': {'error': 6, 'sub_error': 256, 'data': b''}},
+       '@mq:bad2': {'type': 'update', 'msg': {'attr': {1: 0, 2: [(2, [65001])], 3: '10.0.0.1'}, 'nlri': [12345]}}}
 
 
 def messages():
@@ -110,8 +116,11 @@ def explore_schedule(hc, hp, base, steps, stats, out):
                 continue
             if target > w.sim.now + EPS:
                 r.do(('WAIT', round(target - w.sim.now, 6)))
-            if msg == 'SEND':
-                r.do(('REST', 'send'))
+            if msg in ('SEND', 'SENDBIG'):
+                r.do(('REST', 'send' if msg == 'SEND' else 'sendbig'))
+                r.sends.append(w.sim.now)
+            elif msg in ('MQBAD', 'MQBAD2'):
+                r.do(('MQ', 'bad' if msg == 'MQBAD' else 'bad2'))
                 r.sends.append(w.sim.now)
             else:
                 r.do(('RX', 0, msg))
@@ -142,6 +151,11 @@ def check_run(r, done_steps, base):
            'tx': [(round(a - w.sim.t0, 6), m) for a, m in tx], 'closed_at': None if closed_at is None else round(closed_at - w.sim.t0, 6)}
     if any(e[1] for e in w.exceptions) or w.overruns:
         v.append(('C03|exception or overrun in a timer path|%s' % cls, det))
+    # M6: whatever timers and sends coincide, what the agent wrote is a sequence of whole messages
+    stream = b''.join(d for _, d in t.writes)
+    frames, err, rest = wire.deframe(stream)
+    if err is not None or rest:
+        v.append(('C03|M6|the octets written are not a sequence of whole messages (a timer-driven message inside another one?)|%s' % cls, det))
     if base == 'OPENSENT':
         # M5: the large hold time (4 minutes) bounds the wait for the peer's OPEN
         want = t.opened_at + 240.0
@@ -198,7 +212,7 @@ def check_run(r, done_steps, base):
 
 
 def schedules(H, depth, base, with_send):
-    msgs = ['KA', 'UPD'] + (['SEND'] if with_send else [])
+    msgs = ['KA', 'UPD'] + (['SEND', 'SENDBIG', 'MQBAD', 'MQBAD2'] if with_send else [])
     g = gaps_for(H)
     out = [()]
     for n in range(1, depth + 1):
@@ -259,7 +273,7 @@ def run(tier, seed):
         'evaluations': leaves, 'distinct_nontrivial': len(classes),
         'states': runs, 'transitions': runs, 'traces_validated_against_impl': leaves,
         'rule': 'every (configured, proposed) hold pair over %s; from OpenSent (silence), OpenConfirm and Established every '
-                'arrival schedule of <= %d steps over gaps {1s, H/3, H-1, H, H+1} x {KEEPALIVE, UPDATE, agent-side REST send} with, '
+                'arrival schedule of <= %d steps over gaps {1s, H/3, H-1, H, H+1} x {KEEPALIVE, UPDATE, agent-side REST send (small, 3 kB), malformed request queued by the application} with, '
                 'at a gap landing on a deadline, both the arrival-first and the expiry-first order, and every order of '
                 'same-instant timer expiries; then silence until the session ends. distinct_nontrivial = distinct '
                 '(base state, H>0, ended?, gap-label sequence) classes' % (list(HOLDS), depth),
